@@ -615,6 +615,7 @@ func (s *StateDB) DeleteSuicides() {
 			stateObject.deleted = true
 		}
 		delete(s.stateObjectsDirty, addr)
+		stateObject.onDirty = s.MarkStateObjectDirty // no longer dirty: track the next modification again
 	}
 }
 
@@ -650,6 +651,7 @@ func (s *StateDB) Commit(deleteEmptyObjects bool) (root common.Hash, err error) 
 			s.updateStateObject(stateObject)
 		}
 		delete(s.stateObjectsDirty, addr)
+		stateObject.onDirty = s.MarkStateObjectDirty // no longer dirty: track the next modification again
 	}
 	// Write trie changes.
 	root, err = s.trie.Commit(func(leaf []byte, parent common.Hash) error {
